@@ -283,12 +283,16 @@ Proof.
   destruct p; try congruence; cbn [enc_prim];
     try (destruct v as [n|z|bs|tag vs]; try reflexivity;
          try apply pure_bytes; try apply pure_string).
-  - (* PUnit *) destruct tag; try reflexivity. destruct vs; reflexivity.
-  - (* PChar *) destruct (n <? 65536); reflexivity.
-  - (* PDuration *)
-    destruct tag; try reflexivity. destruct vs as [|a vs]; try reflexivity.
-    destruct a; try reflexivity. destruct vs as [|a vs]; try reflexivity.
-    destruct a; try reflexivity. destruct vs; reflexivity.
+  all: unfold of_opt, enc_string;
+       repeat match goal with
+       | |- context [match ?x with _ => _ end] => is_var x; destruct x
+       end;
+       repeat match goal with
+       | |- context [match enc_ndt ?d with _ => _ end] => destruct (enc_ndt d)
+       | |- context [match enc_ndate ?d with _ => _ end] => destruct (enc_ndate d)
+       | |- context [match enc_ntime ?d with _ => _ end] => destruct (enc_ntime d)
+       | |- context [if ?c then _ else _] => destruct c
+       end; reflexivity.
 Qed.
 
 Lemma enc_pure : forall f E t, neutral_ty t = true -> pure_enc (enc f E t).
